@@ -7,7 +7,7 @@
 From Coq Require Import String.
 From Coq Require Import List Arith NArith Bool.
 Import ListNotations.
-From YP Require Import Base.Str Lang.Ast Lang.Unquote Lang.Front Comp.IR Comp.CompileBody Comp.CompileClause Comp.CompileTotal Comp.Emit
+From YP Require Import Base.Str Lang.Ast Lang.Unquote Lang.Front Comp.IR Comp.NumeralName Comp.CompileBody Comp.CompileClause Comp.CompileTotal Comp.Emit
   Comp.PyRepr Comp.Limits Comp.CompileText Comp.EmitShape Comp.EmitNames Comp.EmitPieces Comp.EmitLines Comp.CompileTextSound Comp.FrontLex.
 From YP Require Engine.Resolve.
 Local Open Scope string_scope.
@@ -26,7 +26,7 @@ Print Assumptions C11_compile_program_total.
 (* the four ways compile_prolog_from_string can end, each with its exact cause *)
 Theorem C11_compile_text_cases : forall printable s,
   match compile_text printable s with
-  | CRejectFront => front s = None
+  | CRejectFront => front s = None \/ exists p ir, front s = Some p /\ compile_program p = Some ir /\ ir_bad ir = true
   | CRejectNumeral => exists p ir, front s = Some p /\ compile_program p = Some ir /\ ir_nums_ok ir = false
   | CTooLarge => exists p ir, front s = Some p /\ compile_program p = Some ir /\ ir_nums_ok ir = true /\ py_limits ir = false
   | CText text => exists p ir, front s = Some p /\ compile_program p = Some ir /\ ir_nums_ok ir = true /\ py_limits ir = true /\
